@@ -439,6 +439,9 @@ def monitor_action(case, steps):
                 if call[0] == 'k':
                     # superseded while it ran: it stays cancelled (what run() raises then is left to the correspondence)
                     want = 'C'
+                    if call[1] == 'r' and ret != 'ok':
+                        return [fail(case, 'action-outcome', 'a function that returned normally does not make run() raise: the '
+                                     'outcome is reported through the action itself', dict(step=i, ret=ret, got=got))]
                     if got != want:
                         return [fail(case, 'action-outcome', 'an action cancelled while it runs stays cancelled',
                                      dict(step=i, ret=ret, got=got, want=want))]
